@@ -54,9 +54,10 @@ Lemma compile_count_np : forall mk v, np (compile_count mk v).
 Proof. intros mk v. unfold compile_count. destruct (as_count v); npd. Qed.
 Lemma compile_num_np : forall mk v, np (compile_num mk v).
 Proof. intros mk v. unfold compile_num. destruct v; npd. Qed.
-Lemma compile_ref_np : forall d v, np (compile_ref d v).
+Lemma compile_ref_np : forall d rid v, np (compile_ref d rid v).
 Proof.
-  intros d v. unfold compile_ref. destruct v; try npd.
+  intros d rid v. unfold compile_ref. destruct v as [| | | s0 | |]; try npd.
+  cbv zeta. generalize (localize_ref rid s0). intros s.
   destruct (String.eqb s "#"); try npd.
   destruct (str_prefix ref_prefix_defs s) as [name |].
   - destruct (plain_name name); npd.
@@ -75,10 +76,10 @@ Ltac np_match :=
              assert (H : np r); [| destruct r; simpl in H |- *; try contradiction; auto]
          end.
 
-Lemma compile_member_np : forall rec d root k v,
-  (forall x, sub_of v x -> np (rec x)) -> np (compile_member rec d root k v).
+Lemma compile_member_np : forall rec d rid root k v,
+  (forall x, sub_of v x -> np (rec x)) -> np (compile_member rec d rid root k v).
 Proof.
-  intros rec d root k v Hrec.
+  intros rec d rid root k v Hrec.
   assert (Hsub : np (rec v)) by (apply Hrec; left; reflexivity).
   assert (Hlist : forall ne,
             np (match v with
@@ -125,22 +126,22 @@ Proof.
   - simpl. pose proof (list_sum_in (fun kv => jsize (snd kv)) o (k, x) Hin) as H. simpl in H. lia.
 Qed.
 
-Lemma compile_node_np : forall d root j, np (compile_node d root j).
+Lemma compile_node_np : forall d rid root j, np (compile_node d rid root j).
 Proof.
-  intros d.
-  assert (H : forall n root j, (jsize j <= n)%nat -> np (compile_node d root j)).
+  intros d rid.
+  assert (H : forall n root j, (jsize j <= n)%nat -> np (compile_node d rid root j)).
   { induction n as [| n IH]; intros root j Hsz.
     - destruct j; simpl in Hsz; lia.
     - destruct j as [| b | q | s | l | o]; try exact I.
       + destruct b; exact I.
-      + change (compile_node d root (JObj o)) with
-          (match seq_res (map (fun kv => compile_member (fun x => res_map fst (compile_node d false x)) d root (fst kv) (snd kv)) o) with
+      + change (compile_node d rid root (JObj o)) with
+          (match seq_res (map (fun kv => compile_member (fun x => res_map fst (compile_node d rid false x)) d rid root (fst kv) (snd kv)) o) with
            | Ok cks => let l := List.concat cks in Ok (assemble d l, l)
            | Err e => Err e
            | Panic w => Panic w
            | Diverge => Diverge
            end).
-        assert (Hs : np (seq_res (map (fun kv => compile_member (fun x => res_map fst (compile_node d false x)) d root (fst kv) (snd kv)) o))).
+        assert (Hs : np (seq_res (map (fun kv => compile_member (fun x => res_map fst (compile_node d rid false x)) d rid root (fst kv) (snd kv)) o))).
         { apply map_np. intros [k v] Hin. simpl. apply compile_member_np.
           intros x Hx. apply res_map_np. apply IH.
           pose proof (sub_of_size v x Hx) as H1.
@@ -160,7 +161,7 @@ Lemma compile_root_np : forall j, np (compile_root j).
 Proof.
   intros j. unfold compile_root.
   pose proof (detect_draft_np j) as Hd. destruct (detect_draft j) as [d | | |]; simpl in Hd; try contradiction; try exact I.
-  pose proof (compile_node_np d true j) as Hc. destruct (compile_node d true j) as [[sc cks] | | |]; simpl in Hc; try contradiction; try exact I.
+  pose proof (compile_node_np d (root_id j) true j) as Hc. destruct (compile_node d (root_id j) true j) as [[sc cks] | | |]; simpl in Hc; try contradiction; try exact I.
   cbv zeta.
   repeat match goal with |- np (if ?b then _ else _) => destruct b; [exact I |] end.
   exact I.
